@@ -8,6 +8,7 @@
 
 package rostrings
 
+//@ pure words
 //@ pure toCamelCase
 //@ pure capitalize
 //@ pure ellipsis
@@ -96,4 +97,44 @@ package rostrings
 //@   ensures [what-fits-after-trimming-is-returned-whole|C18] len(res(call.TrimSpace)) <= length ==> trace(call.TrimSpace(str)) && result == res(call.TrimSpace)
 //@   ensures [too-long-for-a-tiny-limit-is-just-the-dots|C18] len(res(call.TrimSpace)) > length && (len(res(call.TrimSpace)) < 3 || length < 3) ==> trace(call.TrimSpace(str)) && result == "..."
 //@   ensures [too-long-is-cut-then-trimmed-again|C18] len(res(call.TrimSpace)) > length && len(res(call.TrimSpace)) >= 3 && length >= 3 ==> count(call.TrimSpace) == 2
+
+//@ func kebabCase
+//@   note the words of the text, each lower-cased, joined with a dash
+//@   props C18
+//@   track call.ToLower call.ToUpper call.Join callfn.* loop.*
+//@   ensures [every-word-lower-cased-then-joined-with-a-dash|C18] trace(loop.L0, call.Join(_, "-"))
+
+//@ loop kebabCase#0
+//@   noexit
+//@   invariant 0 <= it && it <= len(ranged)
+//@   iteration ensures count(call.ToLower) == 1 && count(call.ToUpper) == 0 && count(callfn.ANY) == 0
+
+//@ func snakeCase
+//@   note the words of the text, each lower-cased, joined with an underscore
+//@   props C18
+//@   track call.ToLower call.ToUpper call.Join callfn.* loop.*
+//@   ensures [every-word-lower-cased-then-joined-with-an-underscore|C18] trace(loop.L0, call.Join(_, "_"))
+
+//@ loop snakeCase#0
+//@   noexit
+//@   invariant 0 <= it && it <= len(ranged)
+//@   iteration ensures count(call.ToLower) == 1 && count(call.ToUpper) == 0 && count(callfn.ANY) == 0
+
+//@ func pascalCase
+//@   note the words of the text, each capitalised (and not lower-cased first), joined without a separator
+//@   props C18
+//@   track call.ToLower call.ToUpper call.Join callfn.* loop.*
+//@   ensures [every-word-capitalised-then-joined-without-separator|C18] trace(loop.L0, call.Join(_, ""))
+
+//@ loop pascalCase#0
+//@   noexit
+//@   invariant 0 <= it && it <= len(ranged)
+//@   iteration ensures count(call.ToLower) == 0 && count(call.ToUpper) == 0 && count(callfn.ANY) == 0
+
+//@ func capitalize
+//@   note title-casing by golang.org/x/text with the English rules, made afresh for every call (a Caser is stateful and must not be shared), applied to the text it is given
+//@   props C18
+//@   binds str
+//@   track call.*
+//@   ensures [a-fresh-english-title-caser-applied-to-the-text|C18] count(call.Title) == 1 && count(call.ANY) == 2
 
